@@ -95,6 +95,7 @@ func cmdHarness(args []string) int {
 	timeout := fs.Int("timeout", 60000, "solver timeout ms")
 	maxPaths := fs.Int("maxpaths", 0, "max paths")
 	doReplay := fs.Bool("replay", false, "replay violations natively")
+	stopViol := fs.Int("stopviol", 0, "stop after this many violations")
 	params := paramFlags{}
 	fs.Var(params, "p", "param k=v")
 	fs.Parse(args)
@@ -116,7 +117,7 @@ func cmdHarness(args []string) int {
 			fmt.Println("no such harness", name)
 			return 2
 		}
-		ex := &Explorer{L: l, Fn: f, Params: params, Workers: *workers, Verbose: *verbose, TimeoutMs: *timeout, MaxPaths: *maxPaths}
+		ex := &Explorer{L: l, Fn: f, Params: params, Workers: *workers, Verbose: *verbose, TimeoutMs: *timeout, MaxPaths: *maxPaths, StopViolations: *stopViol}
 		res := ex.Run()
 		printResult(res)
 		if *doReplay {
